@@ -86,9 +86,9 @@ Section CurrentCs.
 
   Lemma run_task_csum : forall now s m tid t o s' r,
     wf_csc_task t -> (m = Run \/ m = Force \/ m = Dry) ->
-    run_task matchb H Hx v now s m tid t o = (s', r) -> csum s m t s' r.
+    run_task_core matchb H Hx v now s m tid t o = (s', r) -> csum s m t s' r.
   Proof.
-    intros now s m tid t o s' r Hwt Hmode E. unfold run_task in E.
+    intros now s m tid t o s' r Hwt Hmode E. unfold run_task_core in E.
     set (dry := match m with Dry => true | _ => false end) in *.
     set (force := match m with Force => true | _ => false end) in *.
     rewrite Hsafe, orb_true_r in E. cbn [andb] in E.
@@ -182,8 +182,8 @@ Section CurrentCs.
     | [] => true
     | e :: r =>
         match snd (o_ev e) with
-        | Invoke _ tid _ => match nth_error p tid with
-                            | Some t => nocoll_step tid (task_fp t before) g
+        | Invoke m tid _ => match nth_error p tid with
+                            | Some t => nocoll_step tid (task_fp t (deps_fs m (fst (o_ev e)) t before)) g
                             | None => true
                             end
         | _ => true
@@ -258,6 +258,11 @@ Section CurrentCs.
       assert (Hrun : forall mm, (mm = Run \/ mm = Force \/ mm = Dry) -> m = mm ->
                 run_task matchb H Hx v t0 s mm tid t oc = (s', x) -> ok = true /\ InvC p s' g').
       { intros mm Hmm -> Er.
+        change (run_task matchb H Hx v t0 s mm tid t oc)
+          with (run_task_core matchb H Hx v t0 (pre_state mm t0 t s) mm tid t oc) in Er.
+        cbn [fst] in Ec, Hn1. change (deps_fs mm t0 t (fs s)) with (fs (pre_state mm t0 t s)) in Ec, Hn1.
+        assert (Hinv0 : InvC p (pre_state mm t0 t s) g) by (eapply invC_same; [|exact Hinv]; reflexivity).
+        clear Hinv. set (s0 := pre_state mm t0 t s) in *.
         pose proof (run_task_csum _ _ _ _ _ _ _ _ Hwt' Hmm Er) as Sm.
         destruct Sm as [Hnf Hup -> ->|Hd Hup Hss Hrd|Hnd Hup Hr Hnone Hoth|Hnd Hup -> Hrec Hoth].
         - cbn [is_skipped] in Ec.
@@ -265,8 +270,8 @@ Section CurrentCs.
           rewrite Hat in Ec.
           unfold upf in Hup. apply andb_true_iff in Hup. destruct Hup as [_ Hup].
           apply andb_true_iff in Hup. destruct Hup as [Hrec Hgen].
-          apply str_eq_opt_true in Hrec. destruct (Hinv _ _ _ Hn Hrec) as [fp0 [Ed Hl]].
-          assert (fp0 = task_fp t (fs s)) by (eapply nocoll_use; eauto using g04_lookup_in).
+          apply str_eq_opt_true in Hrec. destruct (Hinv0 _ _ _ Hn Hrec) as [fp0 [Ed Hl]].
+          assert (fp0 = task_fp t (fs s0)) by (eapply nocoll_use; eauto using g04_lookup_in).
           subst fp0. rewrite Hl, Hgen in Ec. inversion Ec; subst. auto.
         - subst mm. destruct Hrd as [-> | ->]; cbn in Ec; inversion Ec; subst; (split; [reflexivity | eapply invC_same; eauto]).
         - assert (Hat : is_attempt mm x = true).
@@ -314,8 +319,8 @@ Section CurrentCs.
     | [] => true
     | e :: r =>
         match snd (o_ev e) with
-        | Invoke _ tid _ => match nth_error p tid with
-                            | Some t => nocoll5_step tid (task_fp t before) g
+        | Invoke m tid _ => match nth_error p tid with
+                            | Some t => nocoll5_step tid (task_fp t (deps_fs m (fst (o_ev e)) t before)) g
                             | None => true
                             end
         | _ => true
@@ -370,30 +375,36 @@ Section CurrentCs.
           rewrite list_json_quiet; auto. }
       pose proof Hwf as [Hwt Hkeys]. pose proof (Hwt _ _ Hn) as Hwt'.
       (* the monitor's expectation is the model's decision *)
-      assert (Hexp : forall fp0 b0, lookup_nat tid g = Some (fp0, b0) -> recc s t = Some (D fp0) ->
-                fpr_eqb (task_fp t (fs s)) fp0 && gens_exist matchb (fs s) t
-                  && (is_nil (t_status t) || status_ok (fs s) t) = upf s t).
-      { intros fp0 b0 El Hr. unfold upf. rewrite Hr. cbn [str_eq_opt].
-        unfold nocoll5_step in Hn1. rewrite El in Hn1.
-        assert (Heq : String.eqb (D fp0) (D (task_fp t (fs s))) = fpr_eqb (task_fp t (fs s)) fp0).
-        { destruct (String.eqb (D fp0) (D (task_fp t (fs s)))) eqn:E1; cbn in Hn1.
-          - apply fpr_eqb_eq in Hn1. subst fp0. symmetry. apply fpr_eqb_refl.
-          - destruct (fpr_eqb (task_fp t (fs s)) fp0) eqn:E2; auto.
+      assert (Hexp : forall st fp0 b0, lookup_nat tid g = Some (fp0, b0) -> recc st t = Some (D fp0) ->
+                nocoll5_step tid (task_fp t (fs st)) g = true ->
+                fpr_eqb (task_fp t (fs st)) fp0 && gens_exist matchb (fs st) t
+                  && (is_nil (t_status t) || status_ok (fs st) t) = upf st t).
+      { intros st fp0 b0 El Hr Hnc1. unfold upf. rewrite Hr. cbn [str_eq_opt].
+        unfold nocoll5_step in Hnc1. rewrite El in Hnc1.
+        assert (Heq : String.eqb (D fp0) (D (task_fp t (fs st))) = fpr_eqb (task_fp t (fs st)) fp0).
+        { destruct (String.eqb (D fp0) (D (task_fp t (fs st)))) eqn:E1; cbn in Hnc1.
+          - apply fpr_eqb_eq in Hnc1. subst fp0. symmetry. apply fpr_eqb_refl.
+          - destruct (fpr_eqb (task_fp t (fs st)) fp0) eqn:E2; auto.
             apply fpr_eqb_eq in E2. subst fp0. rewrite String.eqb_refl in E1. discriminate. }
-        rewrite Heq. clear Hn1 Heq.
-        destruct (fpr_eqb (task_fp t (fs s)) fp0), (gens_exist matchb (fs s) t),
-                 (is_nil (t_status t) || status_ok (fs s) t); reflexivity. }
+        rewrite Heq. clear Hnc1 Heq.
+        destruct (fpr_eqb (task_fp t (fs st)) fp0), (gens_exist matchb (fs st) t),
+                 (is_nil (t_status t) || status_ok (fs st) t); reflexivity. }
       assert (Hrun : forall mm, (mm = Run \/ mm = Force \/ mm = Dry) -> m = mm ->
                 run_task matchb H Hx v t0 s mm tid t oc = (s', x) -> ok = true /\ InvC5 p s' g').
       { intros mm Hmm -> Er.
+        change (run_task matchb H Hx v t0 s mm tid t oc)
+          with (run_task_core matchb H Hx v t0 (pre_state mm t0 t s) mm tid t oc) in Er.
+        cbn [fst] in Ec, Hn1. change (deps_fs mm t0 t (fs s)) with (fs (pre_state mm t0 t s)) in Ec, Hn1.
+        assert (Hinv0 : InvC5 p (pre_state mm t0 t s) g) by (eapply invC5_same; [|exact Hinv]; reflexivity).
+        clear Hinv. set (s0 := pre_state mm t0 t s) in *.
         pose proof (run_task_csum _ _ _ _ _ _ _ _ Hwt' Hmm Er) as Sm.
-        pose proof (Hinv _ _ Hn) as Hi.
+        pose proof (Hinv0 _ _ Hn) as Hi.
         destruct Sm as [Hnf Hup -> ->|Hd Hup Hss Hrd|Hnd Hup Hr Hnone Hoth|Hnd Hup -> Hrec Hoth].
         - assert (Hat : is_attempt mm RSkipped = false) by (destruct mm; reflexivity).
           rewrite Hat in Ec.
           destruct Hmm as [->|[->| ->]]; try congruence.
           + destruct (lookup_nat tid g) as [[fp0 [|]]|] eqn:El.
-            * rewrite (Hexp _ _ eq_refl Hi), Hup in Ec. inversion Ec; subst; auto.
+            * rewrite (Hexp s0 _ _ eq_refl Hi Hn1), Hup in Ec. inversion Ec; subst; auto.
             * inversion Ec; subst; auto.
             * inversion Ec; subst; auto.
           + inversion Ec; subst; auto.
@@ -402,12 +413,12 @@ Section CurrentCs.
           { destruct Hmm as [->|[->| ->]]; try congruence; destruct Hr as [->|[->| ->]]; reflexivity. }
           assert (Hok : is_ok x = false) by (destruct Hr as [->|[->| ->]]; reflexivity).
           rewrite Hat, Hok in Ec.
-          assert (Hinv' : InvC5 p s' ((tid, (task_fp t (fs s), false)) :: g)).
+          assert (Hinv' : InvC5 p s' ((tid, (task_fp t (fs s0), false)) :: g)).
           { eapply invC5_attempt; eauto. }
           destruct Hmm as [->|[->| ->]]; try congruence.
           + destruct Hup as [Hup|Hup]; [discriminate|].
             destruct (lookup_nat tid g) as [[fp0 [|]]|] eqn:El.
-            * rewrite (Hexp _ _ eq_refl Hi), Hup in Ec.
+            * rewrite (Hexp s0 _ _ eq_refl Hi Hn1), Hup in Ec.
               destruct Hr as [->|[->| ->]]; inversion Ec; subst; auto.
             * inversion Ec; subst; auto.
             * inversion Ec; subst; auto.
@@ -415,14 +426,14 @@ Section CurrentCs.
             rewrite Hsk in Ec. inversion Ec; subst; auto.
         - assert (Hat : is_attempt mm ROk = true) by (destruct Hmm as [->|[->| ->]]; try congruence; reflexivity).
           rewrite Hat in Ec. cbn [is_ok] in Ec.
-          assert (Hrec' : recc s' t = Some (D (task_fp t (fs s)))).
+          assert (Hrec' : recc s' t = Some (D (task_fp t (fs s0)))).
           { destruct Hrec as [Hrec|[_ [Hf _]]]; auto. congruence. }
-          assert (Hinv' : InvC5 p s' ((tid, (task_fp t (fs s), true)) :: g)).
+          assert (Hinv' : InvC5 p s' ((tid, (task_fp t (fs s0), true)) :: g)).
           { eapply invC5_attempt; eauto. }
           destruct Hmm as [->|[->| ->]]; try congruence.
           + destruct Hup as [Hup|Hup]; [discriminate|].
             destruct (lookup_nat tid g) as [[fp0 [|]]|] eqn:El.
-            * rewrite (Hexp _ _ eq_refl Hi), Hup in Ec. inversion Ec; subst; auto.
+            * rewrite (Hexp s0 _ _ eq_refl Hi Hn1), Hup in Ec. inversion Ec; subst; auto.
             * inversion Ec; subst; auto.
             * inversion Ec; subst; auto.
           + cbn in Ec. inversion Ec; subst; auto. }
